@@ -122,6 +122,21 @@ Section Effects.
       end
     end.
 
+  (* ---- single fail-before fault addressed by the global call index ----
+     [Some k]: the k-th call from here fails before executing; [None]: no fault (left).
+     Every addressed fault of [run] is one of these (Calcium/EffectsProofs.v), so
+     "for every k" covers every fault address. *)
+  Fixpoint runk {A} (p : prog A) (w : world) (k : option nat) : world * option nat * A :=
+    match p with
+    | Ret a => (w, k, a)
+    | Do c q =>
+      match k with
+      | Some O => runk (q (fail_reply c)) w None
+      | Some (S j) => let (w', r) := exec w c in runk (q r) w' (Some j)
+      | None => let (w', r) := exec w c in runk (q r) w' None
+      end
+    end.
+
   (* number of non-Proceed decisions *)
   Fixpoint faults_in (l : list decision) : nat :=
     match l with
